@@ -48,10 +48,13 @@ TYPES = {
     'string': (['anything', ''], []),
     # a union whose members decode equal values to different Python classes (int / Decimal): one value space all the same
     'num': (['1', '1.0', '2.50', '07'], ['x', '1e3']),
+    # a union of two primitive types whose Python values compare equal (1 == True) although the XSD values differ
+    'ib': (['1', 'true', '0', 'false', '07'], ['x', '1.5']),
 }
 FIXED = {'int': ('5', ['05', '+5'], ['6']), 'decimal': ('1.0', ['1.00', '1'], ['1.01']),
          'boolean': ('true', ['1'], ['false']), 'date': ('2020-01-01', [], ['2020-01-02']),
-         'string': ('abc', [], ['abd', 'ABC']), 'num': ('1', ['1.0', '01', '1.00'], ['1.01', '2'])}
+         'string': ('abc', [], ['abd', 'ABC']), 'num': ('1', ['1.0', '01', '1.00'], ['1.01', '2']),
+         'ib': ('true', [], ['1', '0', 'false'])}
 
 
 def value_valid(typ, v):
@@ -67,6 +70,9 @@ def value_valid(typ, v):
             return bool(re.fullmatch(r'[+-]?(\d+(\.\d*)?|\.\d+)', v))
         if typ == 'boolean':
             return v in ('true', 'false', '0', '1')
+        if typ == 'ib':
+            import re
+            return bool(re.fullmatch(r'[+-]?\d+', v)) or v in ('true', 'false')
         if typ == 'date':
             import re
             import datetime
@@ -90,6 +96,8 @@ def value_of(typ, v):
         return Decimal(v)
     if typ == 'boolean':
         return v in ('true', '1')
+    if typ == 'ib':   # first matching member: integer, then boolean; the two value spaces are disjoint
+        return ('b', v == 'true') if v in ('true', 'false') else ('i', int(v))
     return v
 
 
@@ -130,7 +138,7 @@ def gen_decl(rng):
 
 def attr_xml(a):
     if a['kind'] == 'local':
-        s = f'<xs:attribute name="{a["name"]}" type="{"t:Num" if a["type"] == "num" else "xs:" + a["type"]}" form="{a["form"]}"'
+        s = f'<xs:attribute name="{a["name"]}" type="{"t:Num" if a["type"] == "num" else "t:IB" if a["type"] == "ib" else "xs:" + a["type"]}" form="{a["form"]}"'
     elif a['kind'] == 'ref_ga':
         s = '<xs:attribute ref="t:ga"'
     elif a['kind'] == 'ref_gd':
@@ -177,6 +185,7 @@ def schema_text(decl):
             f'<xs:attribute name="ga" type="xs:int"/><xs:attribute name="gx" type="xs:date"/>'
             f'<xs:attribute name="gd" type="xs:int" default="7"/>{groups}'
             f'<xs:simpleType name="Num"><xs:union memberTypes="xs:integer xs:decimal"/></xs:simpleType>'
+            f'<xs:simpleType name="IB"><xs:union memberTypes="xs:integer xs:boolean"/></xs:simpleType>'
             f'<xs:element name="e"><xs:complexType>{content}</xs:complexType></xs:element></xs:schema>')
 
 
@@ -530,6 +539,8 @@ def check_data(res, xmlschema, schema, decl, aset, doc, case, version, rng):
             continue
         res.count('data:filled_value_compared')
         v = values[key]
+        if a['type'] == 'ib' and not isinstance(v, str):
+            v = ('b', v) if isinstance(v, bool) else ('i', v)
         same = str(v) == lexical if a['type'] in ('date', 'string') else \
             (v == value_of(a['type'], lexical) if not isinstance(v, str) else value_of(a['type'], v) == value_of(a['type'], lexical))
         if not same:
